@@ -386,9 +386,6 @@ func (r *randomLayout) gap(class int, nonEmpty bool) string {
 		if class == gapErrorType && (r.noDefect || r.g.Chance(7, 8)) {
 			k = r.g.Intn(2)
 		}
-		if class == gapIfaceKeywordName && (r.noDefect || r.g.Chance(7, 8)) {
-			k = r.g.Intn(3)
-		}
 		b.WriteString(idlAtoms[k])
 	}
 	if class == gapAfterIfaceName || class == gapBetweenMembers || class == gapEnd {
